@@ -18,16 +18,22 @@ META = {
 #       "bad date literal", #20171014.Plus(days: 1) throws "bad date", Date('2017-10-15') is false (tz.ndjson).
 #       fix 4b16a57 in /tmp/wt-calendar (validate in UTC, as NormalizeDate already does).
 #
-# Mutation testing (scratch worktree on top of the two fixes, VERIF_REPO=<dir> VERIF_SKIP_MC=1 bin/vcheck C33 quick,
-# seed 1); "tests" = go test ./core/ -run 'Date|Timestamp' and ./builtin/ with the cert overlay:
-#   M1 julianDayNumber without the century terms (- y/100 + y/400)                    tests green  check VIOLATION
-#   M2 NormalizeDate: day clamped to the end of the month when only months are added   tests green  check VIOLATION
-#   M3 NormalizeDate: negative millisecond sums carried by truncation (-1 ms = +999)   tests RED    check VIOLATION
-#   M4 MinusMs: same-date shortcut compares only the day field (d.Day() == other.Day())tests green  check VIOLATION
-#   M5 SuDate.String: seconds dropped when they are 0 although ms != 0                  tests green  check VIOLATION
-#   M6 valid(): 29 February accepted in every year divisible by 4                       tests green  check VIOLATION
-#   M7 Compare: time compared before date                                              tests RED    check VIOLATION
-#   M8 date_MinusSeconds: msFactor .001 applied with integer division (whole seconds)  tests green  check VIOLATION
+# Mutation testing (scratch worktree at 4b16a57 = pinned tree + the two fixes, so that the findings above do not
+# mask anything; VERIF_REPO=<dir> VERIF_SKIP_MC=1 bin/vcheck C33 quick, seed 1); "tests" = go test ./core/
+# (./builtin/ for M8, M9) with the cert overlay.  All rejected in main.ndjson (most also in bigms/tz):
+#   M1  julianDayNumber without the century terms (- y/100 + y/400)                        tests green  check VIOLATION
+#   M2  Plus: day clamped to the end of the target month when only years/months are added  tests green  check VIOLATION
+#   M3  NormalizeDate: negative ms remainder made positive without the borrow (-1000 ms = 0) tests RED  check VIOLATION
+#   M4  MinusMs: same-date shortcut compares only the day field (d.Day() == other.Day())   tests green  check VIOLATION
+#   M5  SuDate.String: seconds and ms dropped whenever the seconds are 0 (12:34:00.500)    tests green  check VIOLATION
+#   M6  valid(): 29 February accepted in every year divisible by 4 (1700, 1900, 2100 ...)  tests green  check VIOLATION
+#   M7  Compare: milliseconds ignored (time >> 10)                                         tests RED    check VIOLATION
+#   M8  date_MinusSeconds: whole seconds only (ms / 1000)                                  tests green  check VIOLATION
+#   M9  date_Plus: minutes and seconds arguments swapped                                   tests green  check VIOLATION
+#   M10 julianDayNumber: a = (13 - month) / 12 (February counted in the new year)          tests RED    check VIOLATION
+#   M11 MinusDays as UnixMilli()/86400000 difference (time of day leaks in before 1970)    tests green  check VIOLATION
+# Anti-vacuity by hand: 10 single-field corruptions of a good trace (r.day, md, mr, cmp, ok, literal text, parse
+# result, parse of an impossible day accepted, Diff.md) are each rejected at exactly the corrupted line.
 
 ZONES = ["America/Sao_Paulo", "Pacific/Apia", "America/Havana", "Asia/Beirut", "Asia/Tehran", "Africa/Cairo",
          "America/New_York", "Europe/London", "Australia/Lord_Howe"]
@@ -94,7 +100,7 @@ def run(ctx):
     # millisecond offsets beyond 9.2e12 (int64 nanoseconds): validated separately so that a
     # rejection there (finding plus-ms-int64-overflow) does not hide the rest
     validate(ctx, ctx.work + "/bigms.ndjson", key="plus-ms-int64-overflow")
-    for k in ("Plus", "Diff", "Lit", "Parse"):
+    for k in ("Valid", "Plus", "Diff", "Lit", "Parse"):
         ctx.cov["real_calls_" + k] = summ.get(k, 0)
     # 3. the same under local time zones with daylight saving at midnight / a skipped day
     # ("SuDate does not take into account time zones or daylight savings")
